@@ -492,12 +492,20 @@ pub fn swarm_cfg(rng: &mut Rng, cfg: &mut RunCfg, nthreads: usize, allow_stall: 
     cfg.align = if rng.chance(0.3) { 32 } else { 8 };
 }
 
+/// Thorough tier: larger programs, more threads, bigger structures (set once per process by
+/// the check driver; a run description still records everything it needs to replay).
+pub static DEEP: std::sync::atomic::AtomicBool = std::sync::atomic::AtomicBool::new(false);
+pub fn deep() -> bool {
+    DEEP.load(std::sync::atomic::Ordering::Relaxed)
+}
+
 pub fn gen_interp_run(prop: &str, family: &str, seed: u64, profile: Profile) -> RunDesc {
     let mut rng = Rng::new(seed);
     let mut cfg = RunCfg::default();
+    let big = deep() && rng.chance(0.5);
     let nworkers = match profile {
-        Profile::Cells | Profile::WCells => 2 + rng.below(2) as usize,
-        _ => 2 + rng.below(3) as usize,
+        Profile::Cells | Profile::WCells => 2 + rng.below(if big { 3 } else { 2 }) as usize,
+        _ => 2 + rng.below(if big { 5 } else { 3 }) as usize,
     };
     let ntick = match profile {
         Profile::Cells | Profile::WCells => rng.below(2) as usize,
@@ -513,7 +521,7 @@ pub fn gen_interp_run(prop: &str, family: &str, seed: u64, profile: Profile) -> 
             cfg.roots = 1 + rng.below(2) as u32;
             cfg.wroots = 1 + rng.below(2) as u32;
             // keep histories short: the linearizability check is exponential in overlap
-            let total = 8 + rng.below(10) as usize;
+            let total = 8 + rng.below(if big { 16 } else { 10 }) as usize;
             for i in 0..nworkers {
                 let n = total / nworkers + if i == 0 { total % nworkers } else { 0 };
                 let mut ops = vec![op(K::Pin, 0, 0, 0, 0), op(K::New, 0, NONE_SLOT, 0, 0)];
@@ -530,7 +538,7 @@ pub fn gen_interp_run(prop: &str, family: &str, seed: u64, profile: Profile) -> 
         }
         _ => {
             for _ in 0..nworkers {
-                let n = 5 + rng.below(36) as usize;
+                let n = 5 + rng.below(if big { 90 } else { 36 }) as usize;
                 let mut t = ThreadProg::new(0, gen_ops(&mut rng, profile, n, cfg.roots, cfg.wroots));
                 if profile == Profile::Tls || rng.chance(0.1) {
                     t.tls_mode = 1 + rng.below(2) as u32;
@@ -576,6 +584,7 @@ pub fn generate(prop: &str, family: &str, seed: u64) -> RunDesc {
         "dir-t7" => crate::dir::t7(prop, seed),
         "dir-t8" => crate::dir::t8(prop, seed),
         "dir-w" => crate::dir::w(prop, seed),
+        "dir-c" => crate::dir::c(prop, seed),
         "queue" => crate::fam_queue::gen(prop, seed),
         "list" => crate::fam_list::gen(prop, seed),
         "chain" => crate::fam_chain::gen(prop, seed, false),
